@@ -34,7 +34,11 @@
 (*   O5 an operation that returned success is fully visible                *)
 (*   O6 repeating the interrupted operation reaches the intended state     *)
 (* The intended state is derived here from the operation kind and its      *)
-(* arguments (header of the trace), not from what the code did.            *)
+(* arguments (header of the trace), not from what the code did.  The kinds *)
+(* blob_bad / man_bad offer content that does not match its descriptor:    *)
+(* the statement demands nothing of their outcome beyond O1-O4 (whatever   *)
+(* the writer does with such content, no digest-named file may hold other  *)
+(* content and no tag may be hurt, at any instant).                        *)
 (* `bad` is the list of obligations violated by the CURRENT observation    *)
 (* (not latched: validation continues past a reported state so that one    *)
 (* known defect cannot hide another).                                      *)
@@ -104,7 +108,7 @@ GoalChecks(e, o) ==
           \/ Range(op.norefs) \cap Range(e.refs) # {}
           \/ (op.wantrefs # <<>> /\ op.fbtag \notin DOMAIN cur)
           \/ (op.subj # "" /\ e.refs_err # 0), o \o "-referrers">>,
-        <<op.kind \notin {"blob_put", "blob_delete"} /\ e.index # "ok", o \o "-index">> >>
+        <<op.kind \notin {"blob_put", "blob_delete", "blob_bad"} /\ e.index # "ok", o \o "-index">> >>
 
 \* the directory after the k-th mutating system call (crash state k)
 PSys(e) ==
